@@ -692,9 +692,9 @@ lazy_static::lazy_static! {
         )?
     $").unwrap();
     pub(crate) static ref INTEGER: Regex = Regex::new(r"^[+-]?[0-9]+$").unwrap();
-    pub(crate) static ref DECIMAL: Regex = Regex::new(r"^[+-]?[0-9]*.[0-9]+$").unwrap();
+    pub(crate) static ref DECIMAL: Regex = Regex::new(r"^[+-]?[0-9]*\.[0-9]+$").unwrap();
     pub(crate) static ref DOUBLE: Regex = Regex::new(r"(?x)^
-      [+-]? ( [0-9]+ ( . [0-9]* )? | . [0-9]+ ) [eE] [+-]? [0-9]+
+      [+-]? ( [0-9]+ ( \. [0-9]* )? | \. [0-9]+ ) [eE] [+-]? [0-9]+
     $").unwrap();
     pub(crate) static ref BOOLEAN: Regex = Regex::new(r"^(true|false)$").unwrap();
 }
